@@ -116,6 +116,24 @@ def programs(tier):
     p = Program("c10_div_literal_zero")
     p.fn("main", [], UNIT, Block([Let("x", Int(5)), println(Str("before")), println(show_int(Bin("/", Var("x"), Int(0)))), println(Str("after"))], Unit))
     add("div-literal-zero", p, expect="accept")
+    # a literal zero as the *other* operand: 0 / x still divides (and fails when x is zero at run time); 0 * x, x * 0, x + 0,
+    # x - 0, 0 - x keep evaluating x and keep the width's arithmetic
+    for ty in BITS:
+        TY = T(ty)
+        z = lambda: lit(0, ty)
+        p = Program(f"c10_zero_operand_{ty}")
+        p.fn("num", [("x", TY)], TY, Block([println(Str("num"))], Var("x")))
+        p.fn("quot", [("x", TY)], TY, Bin("/", z(), Var("x")))
+        p.fn("prodl", [("x", TY)], TY, Bin("*", z(), Call("num", Var("x"))))
+        p.fn("prodr", [("x", TY)], TY, Bin("*", Call("num", Var("x")), z()))
+        p.fn("negz", [("x", TY)], TY, Bin("-", z(), Var("x")))
+        show = lambda e: println(Call(ty + "_to_string", e))
+        p.fn("main", [], UNIT, Block([
+            show(Call("quot", lit(3, ty))), show(Call("prodl", lit(3, ty))), show(Call("prodr", lit(5, ty))), show(Call("negz", lit(1, ty))),
+            Let("zero", Bin("-", lit(5, ty), lit(5, ty)) if False else Call("num", lit(0, ty))),
+            println(Str("before")), show(Call("quot", Var("zero"))), println(Str("after")),
+        ], Unit))
+        add(f"zero-literal-operand:{ty}", p, expect="accept")
     # mixed-width program: values keep their own widths
     p = Program("c10_mixed_widths")
     p.fn("main", [], UNIT, Block([
